@@ -106,6 +106,7 @@ func (l *Local[T]) Store(proc *Process, val T) {
 	l.mu.Unlock()
 
 	if !ok {
+		verifYield(1, nil)
 		proc.AddExitHook(ExitFunc(func(err error) {
 			l.Delete(proc)
 		}))
@@ -136,6 +137,7 @@ func (l *Local[T]) LoadOrStore(proc *Process, val func() (T, error)) (T, error) 
 		return v, nil
 	}
 
+	verifYield(2, nil)
 	l.mu.Lock()
 
 	if v, ok := l.eager[proc]; ok {
@@ -151,11 +153,13 @@ func (l *Local[T]) LoadOrStore(proc *Process, val func() (T, error)) (T, error) 
 
 	l.mu.Unlock()
 
+	verifYield(3, fn)
 	v, err := fn.Do()
 	if err != nil {
 		return v, err
 	}
 
+	verifYield(4, fn)
 	l.mu.Lock()
 
 	l.eager[proc] = v
@@ -166,6 +170,7 @@ func (l *Local[T]) LoadOrStore(proc *Process, val func() (T, error)) (T, error) 
 
 	l.mu.Unlock()
 
+	verifYield(5, nil)
 	proc.AddExitHook(ExitFunc(func(err error) {
 		l.Delete(proc)
 	}))
